@@ -80,6 +80,8 @@ def plan(tier, seed):
         shards.append(("prune", pi))
     for a, b in E.chunks(3024, 126):
         shards.append(("prune2d", a, b, (1,) if tier == "quick" else (1, 2)))
+    for b in range(1, 12):
+        shards.append(("prune12", b))
     shards.sort(key=lambda sh: 0 if sh[1] == "scripted" else 1)
     return shards
 
@@ -411,6 +413,25 @@ def prune_programs_2d(a, b, seed, iters_list):
                                "Xv": [[v[0] * sc, v[1] * sc] for v in xv], "Yv": yv, "iters": iters}
 
 
+def prune_programs_12(b, seed):
+    """twelve training samples on a line (more than a small hash table holds), class boundary at b,
+    every rotation of the sample order, every pair of validation points: few samples stay relevant"""
+    sc = [1.0, 2.0, 0.5, 3.0][seed % 4] if seed else 1.0
+    base = [float(i) * 1.5 + (i % 3) * 0.1 for i in range(12)]
+    lab = [0 if i < b else 1 for i in range(12)]
+    mids = [base[i] + 0.6 for i in range(0, 12, 2)]
+    for rot in range(12):
+        order = list(range(rot, 12)) + list(range(rot))
+        X = [base[i] * sc for i in order]
+        Y = [lab[i] for i in order]
+        for xv in itertools.combinations(mids, 2):
+            yv = [0 if v < base[b] else 1 for v in xv]
+            if len(set(yv)) < 2:
+                yv = [0, 1]
+            for iters in (1, 2):
+                yield {"part": "prune", "Xt": X, "Yt": Y, "Xv": [v * sc for v in xv], "Yv": yv, "iters": iters}
+
+
 def prune_programs(pi, seed):
     sc = [1.0, 2.0, 0.5, 3.0][seed % 4] if seed else 1.0
     pts = [0.0, 1.0, 2.0, 3.0, 6.0, 7.0]
@@ -515,8 +536,12 @@ def run(shard, seed):
                     break
         return res
     first = True
-    progs = prune_programs(shard[1], seed) if shard[0] == "prune" else \
-        prune_programs_2d(shard[1], shard[2], seed, shard[3])
+    if shard[0] == "prune":
+        progs = prune_programs(shard[1], seed)
+    elif shard[0] == "prune12":
+        progs = prune_programs_12(shard[1], seed)
+    else:
+        progs = prune_programs_2d(shard[1], shard[2], seed, shard[3])
     for prog in progs:
         try:
             with horizon(30.0):
